@@ -117,6 +117,8 @@ func (obj List) LoadForm() Object {
 			switch te := obj[len(obj)-2].(type) {
 			case nil:
 				// already nil
+			case Symbol:
+				form[1] = List{quoteSymbol, te}
 			case LoadFormer:
 				form[1] = te.LoadForm()
 			default:
@@ -125,6 +127,8 @@ func (obj List) LoadForm() Object {
 			switch te := tail.Value.(type) {
 			case nil:
 				// already nil
+			case Symbol:
+				form[2] = List{quoteSymbol, te}
 			case LoadFormer:
 				form[2] = te.LoadForm()
 			default:
@@ -137,6 +141,8 @@ func (obj List) LoadForm() Object {
 					switch te := obj[i].(type) {
 					case nil:
 						// already nil
+					case Symbol:
+						head[i+1] = List{quoteSymbol, te}
 					case LoadFormer:
 						head[i+1] = te.LoadForm()
 					default:
@@ -154,6 +160,9 @@ func (obj List) LoadForm() Object {
 		switch tv := v.(type) {
 		case nil:
 			// already nil
+		case Symbol:
+			// The form is evaluated when loaded, a bare symbol would be a variable.
+			form[i+1] = List{quoteSymbol, tv}
 		case LoadFormer:
 			form[i+1] = tv.LoadForm()
 		default:
